@@ -51,6 +51,8 @@ impl Default for IoCfg {
 pub enum SendOp {
     Reserve { n: usize },
     PollCap,
+    /// poll_capacity once, log the result and go on whatever it was
+    PollCapOnce,
     /// read capacity() (census)
     Cap,
     /// send n bytes in one send_data call
